@@ -3,4 +3,5 @@ pub mod gen;
 pub mod ids;
 pub mod prog;
 pub mod rules;
+pub mod states;
 pub mod tick;
